@@ -777,6 +777,7 @@ impl Check for C11 {
         vec![
             ProfileSpec { name: "announce", quick: 2500, thorough: 150_000 },
             ProfileSpec { name: "honest-swarm", quick: 500, thorough: 20_000 },
+            ProfileSpec { name: "stall", quick: 1500, thorough: 60_000 },
         ]
     }
     fn rule(&self) -> &'static str {
@@ -924,7 +925,7 @@ impl Check for C11 {
                         vd.probe("haves_held_back_while_choked");
                         vd.nontrivial = true;
                     }
-                    let settled = end >= last_done_t + 500 && end >= st.last_change_t + 500;
+                    let settled = end >= last_done_t + 500 && end >= st.last_change_t + 500 && end >= v.reading_since(*c).saturating_add(1000);
                     if open && !st.peer_choking && settled && e < k_idx.len() {
                         vd.fail(
                             "C11",
